@@ -11,6 +11,8 @@ open EzdxfVerif EzdxfVerif.Render Proto
       9th field `order` + 10th field `entityhandle:sorthandle;…` = redraw order table of the layout (keep `*` = no filter)
     request  `layers|<layout>|<export>|<layers>|<frozen names joined by ;>[|<overrides>]` → resolved layer table of `from_viewport`,
       overrides = `layername:aci:rgb|-:rawtransparency:linetype:lineweight` joined by `;`
+    request  `drawp|<layout>|<export>|<layers>|<blocks>|<entities>|<ColorPolicy>|<custom fg rgb:alpha>|<BackgroundPolicy>|<custom bg dark 0/1>|<rgb:gray;…>`
+      → `draw` followed by the colour stage of the render pipeline (policy + cache); foreground colour from the background policy
     request  `vports|<status values joined by space>` → status values of the viewports that are drawn
     request  `drawvp|<layout>|<export>|<layers>|<blocks>|<entities>|<viewports>|<modelspace entities>` → paperspace layout with
       VIEWPORT entities (`status,scale,ox,oy,frozen&…,override&…` joined by `;`)
@@ -241,6 +243,25 @@ def parseVp (s : String) : Option Vp :=
     | _, _, _, _, _ => none
   | _ => none
 
+def parsePolicy (s : String) : Option ColorPolicy :=
+  match s with
+  | "COLOR" => some .color | "COLOR_SWAP_BW" => some .swapBW | "COLOR_NEGATIVE" => some .negative
+  | "MONOCHROME" => some .monochrome | "MONOCHROME_DARK_BG" => some .monoDark | "MONOCHROME_LIGHT_BG" => some .monoLight
+  | "BLACK" => some .black | "WHITE" => some .white | "CUSTOM" => some .custom | _ => none
+
+def parseBg (s : String) : Option BgPolicy :=
+  match s with
+  | "DEFAULT" => some .default | "WHITE" => some .white | "BLACK" => some .black | "PAPERSPACE" => some .paperspace
+  | "MODELSPACE" => some .modelspace | "OFF" => some .off | "CUSTOM" => some .custom | _ => none
+
+/-- `rgb:alpha|-` (decimal) -/
+def parseColor (s : String) : Option Color :=
+  match s.splitOn ":" with
+  | [rgb, a] => match rgb.toNat?, (if a = "-" then some none else a.toNat?.map some) with
+    | some rgb, some a => some ⟨rgb, a⟩
+    | _, _ => none
+  | _ => none
+
 /-- `entityhandle:sorthandle` (decimal) -/
 def parsePair (s : String) : Option (Nat × Nat) :=
   match s.splitOn ":" with
@@ -304,6 +325,17 @@ def step (line : String) : String :=
       | .ok (ps, st) => if st = State.init then showPrims ps else "ok-unbalanced " ++ showPrims ps
       | .error e => showErr e
     | _, _, _, _, _ => "bad-op parse"
+  | ["drawp", layout, exp, layers, blocks, ents, pol, custom, bg, cdark, grays] =>
+    match parsePolicy pol, parseColor custom, parseBg bg, parseBool cdark, (splitList grays ";").mapM parsePair,
+          parseBool exp, (splitList layers ";").mapM parseLayer, (splitList blocks "!").mapM parseBlock, parseEnts ents with
+    | some pol, some cu, some bg, some cd, some gs, some ex, some ls, some bs, some es =>
+      let fg := layoutFg bg (layout = "msp") cd
+      let gray : Nat → Nat := fun rgb => match gs.find? (fun p => p.1 = rgb) with | some p => p.2 | none => 0
+      match drawLayout ⟨bs⟩ (mkCtx fg Gen.RenderTables.aciRgb ex ls) es with
+      | .ok (ps, st) =>
+        if st = State.init then showPrims (backendStage pol cu gray ps) else "ok-unbalanced"
+      | .error e => showErr e
+    | _, _, _, _, _, _, _, _, _ => "bad-op parse"
   | ["vports", status] =>
     match (splitList status " ").mapM parseInt with
     | some vs => " ".intercalate ((viewportsDrawn vs).map toString)
